@@ -9,7 +9,7 @@
    Tied to src/bin_archive.rs by `./check C01`. *)
 From Coq Require Import List NArith ZArith Bool Permutation.
 From Mila Require Import Lib.Bytes Lib.Machine Model.BinArchive Model.BinFormat Proofs.AMapLemmas Proofs.BinFormatSpec Proofs.BinParserCorrect
-  Proofs.BinSerializeConformsBase Proofs.BinSerializeConformsPhases Proofs.BinSerializeConforms Proofs.BinRoundTrip.
+  Proofs.BinSerializeConformsBase Proofs.BinSerializeConformsPhases Proofs.BinSerializeConforms Proofs.BinRoundTrip Proofs.BinTotal.
 Import ListNotations.
 Local Open Scope N_scope.
 
@@ -31,19 +31,46 @@ Proof. exact parser_correct. Qed.
    decoder).  Every theorem of this file holds for EVERY key function - no injectivity or any other property of kf is
    needed: the format relation does not fix the order of the label table and the addresses of a label map are distinct. *)
 
-(* serialize succeeds on every archive of the property's domain and its image conforms to the format for the
+(* The 32-bit sizes of the format (fix 524d15f, finding F25): BinArchive::serialize computes the size of the image and rejects
+   it - an error, in either arithmetic profile, before anything is truncated - when it exceeds u32::MAX; so SUCCESS of
+   serialize is the size condition, and the theorems below about an image f are stated for every successful serialize with no
+   a-priori bound.  [image_size kf a] is the number the guard compares with 2^32 - 1 (the exact length of the image);
+   [fits32 a] (a simple closed upper bound of it < 2^32, Proofs/BinSerializeConforms.v) remains as the SUFFICIENT condition
+   for success where a theorem promises that an image exists. *)
+Theorem C01_serialize_ok_iff_fits : forall kf m a, wf_archive a ->
+  ((exists f, serialize_k kf m a = Ok f) <-> image_size kf a < 2 ^ 32).
+Proof. exact serialize_ok_iff. Qed.
+Theorem C01_serialize_rejects_large : forall kf m a, wf_archive a ->
+  2 ^ 32 <= image_size kf a -> serialize_k kf m a = Err EOther.
+Proof. exact serialize_rejects_large. Qed.
+(* what is accepted has exactly that length; the closed bound of fits32 dominates it *)
+Theorem C01_serialize_ok_length : forall kf m a f, wf_archive a -> serialize_k kf m a = Ok f ->
+  lenN f = image_size kf a /\ lenN f < 2 ^ 32.
+Proof. exact serialize_ok_length. Qed.
+Theorem C01_image_size_bound : forall kf a, wf_archive a -> size a < 2 ^ 32 -> image_size kf a <= ser_bound a.
+Proof. exact image_size_bound. Qed.
+(* never a panic, on ANY archive (no well-formedness, no size hypothesis), in either profile: the u32 addition in the header -
+   the one place that panicked in checked builds (review 2, V1: size 2^32 - 4 with a pending c-string) - sits behind the guard *)
+Theorem C01_serialize_never_panics : forall kf m a p, serialize_k kf m a <> Panic p.
+Proof. exact serialize_no_panic_all. Qed.
+
+(* every successful serialize of an archive of the property's domain conforms to the format for the
    PUBLISHED content: the archive's own strings, pointers and labels, the data with every annotated cell
    filled in followed by the padded c-string pool, and one pointer into the pool per pending c-string.
    [wf_archive] (Proofs/BinSerializeConforms.v) is the property's quantifier: at most one annotation per cell,
    cells inside the data and not overlapping, targets and labels <= size, NUL-free well-formed strings,
-   non-empty buckets; no alignment of the data length.  [fits32]: the image is smaller than 4 GiB. *)
+   non-empty buckets; no alignment of the data length. *)
+Theorem C01_serialize_ok_conforms : forall kf m a f, wf_archive a -> serialize_k kf m a = Ok f ->
+  wfb f /\ conforms (a_endian a) f (published kf a).
+Proof. exact serialize_ok_conforms. Qed.
+(* ... and serialize does succeed when the closed bound fits32 holds *)
 Theorem C01_serialize_conforms : forall kf m a, wf_archive a -> fits32 a ->
   exists f, serialize_k kf m a = Ok f /\ wfb f /\ conforms (a_endian a) f (published kf a).
 Proof. exact serialize_conforms. Qed.
 
-(* the serialized image is itself well-formed: header totals exact, every table entry and label name inside
-   the file, tables word-aligned whenever the data is (c-string pool included) *)
-Theorem C01_image_wellformed : forall kf m a f, wf_archive a -> fits32 a -> serialize_k kf m a = Ok f ->
+(* the serialized image is itself well-formed: header totals exact (no field truncated), every table entry and label name
+   inside the file, tables word-aligned whenever the data is (c-string pool included) *)
+Theorem C01_image_wellformed : forall kf m a f, wf_archive a -> serialize_k kf m a = Ok f ->
   let d := c_data (published kf a) in let e := a_endian a in
   exists ptab ltab txt,
     f = enc e 4 (lenN f) ++ enc e 4 (lenN d) ++ enc e 4 (lenL ptab) ++ enc e 4 (lenL ltab) ++ zeros 16
@@ -54,9 +81,22 @@ Theorem C01_image_wellformed : forall kf m a f, wf_archive a -> fits32 a -> seri
     (size a mod 4 = 0 -> (32 + lenN d) mod 4 = 0 /\ (32 + lenN d + 4 * lenL ptab) mod 4 = 0).
 Proof. exact serialize_image_wellformed. Qed.
 
-(* the round trip: same size (plus the pool the format appends; nothing without c-strings), same raw bytes
-   outside annotated cells, same strings, pointers, labels in per-address order, every pending c-string
+(* the round trip of EVERY successful serialize: same size (plus the pool the format appends; nothing without c-strings), same
+   raw bytes outside annotated cells, same strings, pointers, labels in per-address order, every pending c-string
    readable at its cell - in either endianness, strings and c-strings mixed *)
+Theorem C01_round_trip_ok : forall kf m a f,
+  wf_archive a -> serialize_k kf m a = Ok f ->
+  exists a',
+    wfb f /\ from_bytes (a_endian a) f = Ok a' /\
+    a_endian a' = a_endian a /\ a_cstrs a' = [] /\
+    size a' = size a + lenN (pool_bytes a) /\ lenN (pool_bytes a) mod 4 = 0 /\ (a_cstrs a = [] -> size a' = size a) /\
+    (forall i, (i < N.to_nat (size a))%nat -> outside (cells a) i -> nth_error (a_data a') i = nth_error (a_data a) i) /\
+    (forall x, am_get x (a_text a') = am_get x (a_text a)) /\
+    (forall x, ~ In x (cs_cells a) -> am_get x (a_ptrs a') = am_get x (a_ptrs a)) /\
+    (forall x, am_get x (a_labels a') = am_get x (a_labels a)) /\
+    (forall s cs cell, In (s, cs) (a_cstrs a) -> In cell cs -> read_c_string a' cell = Ok (Some s)).
+Proof. exact round_trip_ok. Qed.
+(* with the closed bound the image exists, so the round trip happens *)
 Theorem C01_round_trip : forall kf m a,
   wf_archive a -> fits32 a ->
   exists f a',
@@ -119,14 +159,14 @@ Proof. vm_compute. eexists. repeat split. Qed.
    multiple of 4, and the sizes are EQUAL whenever no c-string is pending. *)
 From Mila Require Import Proofs.BinRoundTripSize.
 Definition C01_same_size_full : Prop :=
-  forall kf m a f a', wf_archive a -> fits32 a -> serialize_k kf m a = Ok f -> from_bytes (a_endian a) f = Ok a' -> size a' = size a.
+  forall kf m a f a', wf_archive a -> serialize_k kf m a = Ok f -> from_bytes (a_endian a) f = Ok a' -> size a' = size a.
 (* ex_archive: 14 data bytes and the c-string "cs" pending at cell 4; the parsed archive has 14 + |"cs\0" padded to 4| = 18 bytes *)
 Theorem C01_same_size_refuted :
   exists kf m a f a', wf_archive a /\ fits32 a /\ serialize_k kf m a = Ok f /\ from_bytes (a_endian a) f = Ok a' /\
                       size a = 14 /\ size a' = 18.
 Proof. exact same_size_refuted. Qed.
 Theorem C01_same_size_partial : forall kf m a f a',
-  wf_archive a -> fits32 a -> serialize_k kf m a = Ok f -> from_bytes (a_endian a) f = Ok a' ->
+  wf_archive a -> serialize_k kf m a = Ok f -> from_bytes (a_endian a) f = Ok a' ->
   size a' = size a + lenN (pool_bytes a) /\ lenN (pool_bytes a) mod 4 = 0 /\ (a_cstrs a = [] -> size a' = size a).
 Proof. exact round_trip_size. Qed.
 
@@ -153,3 +193,29 @@ Proof. vm_compute. split; reflexivity. Qed.
 Example C01_example_empty_bucket_not_wf :
   ~ wf_archive {| a_data := zeros 8; a_text := []; a_ptrs := []; a_labels := [(0, [])]; a_cstrs := []; a_endian := LE |}.
 Proof. intros H. destruct (wf_labels _ H 0 [] (or_introl eq_refl)) as (_ & Hne & _). congruence. Qed.
+
+(* ---- the 32-bit guard at its boundary, for sizes no test can build (a 4 GiB image does not fit the harness protocol): symbolic
+   in the data length, both profiles, both endiannesses.  An archive without annotations is written as header ++ data exactly
+   when size + 32 <= 2^32 - 1; the largest accepted one has an image of 2^32 - 1 bytes whose size field says so, the next
+   size is rejected (before fix 524d15f it was written with size field 0). ---- *)
+From Mila Require Import Proofs.BinSerializeBoundary.
+Theorem C01_serialize_boundary : forall kf m a,
+  a_text a = [] -> a_ptrs a = [] -> a_labels a = [] -> a_cstrs a = [] ->
+  serialize_k kf m a =
+    if size a + 32 <=? 4294967295
+    then Ok (enc (a_endian a) 4 (size a + 32) ++ enc (a_endian a) 4 (size a) ++ enc (a_endian a) 4 0 ++ enc (a_endian a) 4 0
+             ++ zeros 16 ++ a_data a)
+    else Err EOther.
+Proof. exact serialize_plain_boundary. Qed.
+Theorem C01_serialize_largest_accepted : forall kf m a,
+  a_text a = [] -> a_ptrs a = [] -> a_labels a = [] -> a_cstrs a = [] -> size a = 4294967263 ->
+  exists f, serialize_k kf m a = Ok f /\ lenN f = 4294967295 /\ u32_at (a_endian a) f 0 = Some 4294967295.
+Proof. exact serialize_plain_largest. Qed.
+Theorem C01_serialize_smallest_rejected : forall kf m a,
+  a_text a = [] -> a_ptrs a = [] -> a_labels a = [] -> a_cstrs a = [] -> size a = 4294967264 ->
+  serialize_k kf m a = Err EOther.
+Proof. exact serialize_plain_smallest_rejected. Qed.
+(* small instance of the same equation, computed *)
+Example C01_example_boundary_small :
+  serialize_k key_bytes Checked (allocate_at_end (ba_new BE) 2) = Ok [0;0;0;34; 0;0;0;2; 0;0;0;0; 0;0;0;0; 0;0;0;0;0;0;0;0;0;0;0;0;0;0;0;0; 0;0].
+Proof. vm_compute. reflexivity. Qed.
